@@ -54,15 +54,15 @@ fn builder_push_inner_node() {
     let mut b = mk_builder(heights, c128, h);
     let r = b.push_inner_node();
     // BIP341: a child of a node at depth h sits at depth h+1, which must be <= 128
-    assert!(r.is_err() == (h as usize + 1 > 128), "C15:push_inner_node.err_iff_depth_exceeds_128");
+    assert!(r.is_err() == (h as usize + 1 > 128), "C10,C15:push_inner_node.err_iff_depth_exceeds_128");
     if r.is_ok() {
-        assert!(b.current_height == h + 1, "C15:push_inner_node.descends_one_level");
-        assert!(b.complete_heights == heights && b.complete_128 == c128, "C15:push_inner_node.flags_unchanged");
-        assert!(wf(b.complete_heights, b.complete_128, b.current_height), "C15:push_inner_node.invariant");
+        assert!(b.current_height == h + 1, "C10,C15:push_inner_node.descends_one_level");
+        assert!(b.complete_heights == heights && b.complete_128 == c128, "C10,C15:push_inner_node.flags_unchanged");
+        assert!(wf(b.complete_heights, b.complete_128, b.current_height), "C10,C15:push_inner_node.invariant");
         // the freshly entered level has no finished left subtree
-        assert!(!done(b.complete_heights, b.complete_128, b.current_height), "C15:push_inner_node.new_level_not_done");
+        assert!(!done(b.complete_heights, b.complete_128, b.current_height), "C10,C15:push_inner_node.new_level_not_done");
     }
-    assert!(b.depths_leaves.is_empty(), "C15:push_inner_node.leaves_unchanged");
+    assert!(b.depths_leaves.is_empty(), "C10,C15:push_inner_node.leaves_unchanged");
     core::mem::forget(b);
 }
 
@@ -84,24 +84,24 @@ fn push_leaf_at(h: u8, shared_leaf: &Arc<Ms>) {
     let (heights2, c128_2, h2) = (b.complete_heights, b.complete_128, b.current_height);
 
     // the leaf is recorded at the depth of the cursor
-    assert!(b.depths_leaves.len() == 1, "C15:push_leaf.records_one_leaf");
-    assert!(b.depths_leaves[0].0 == h, "C15:push_leaf.records_current_depth");
-    assert!(Arc::ptr_eq(&b.depths_leaves[0].1, &keep), "C15:push_leaf.records_the_leaf");
+    assert!(b.depths_leaves.len() == 1, "C10,C15:push_leaf.records_one_leaf");
+    assert!(b.depths_leaves[0].0 == h, "C10,C15:push_leaf.records_current_depth");
+    assert!(Arc::ptr_eq(&b.depths_leaves[0].1, &keep), "C10,C15:push_leaf.records_the_leaf");
 
     // carry (see header): h2 = max { d <= h : d == 0 or !done(d) }
-    assert!(h2 <= h, "C15:push_leaf.cursor_never_descends");
-    assert!(h2 == 0 || !done(heights, c128, h2), "C15:push_leaf.stops_at_unfinished_left");
+    assert!(h2 <= h, "C10,C15:push_leaf.cursor_never_descends");
+    assert!(h2 == 0 || !done(heights, c128, h2), "C10,C15:push_leaf.stops_at_unfinished_left");
     if i > h2 && i <= h {
-        assert!(done(heights, c128, i), "C15:push_leaf.climbs_only_over_finished_left");
-        assert!(!done(heights2, c128_2, i), "C15:push_leaf.clears_climbed_levels");
+        assert!(done(heights, c128, i), "C10,C15:push_leaf.climbs_only_over_finished_left");
+        assert!(!done(heights2, c128_2, i), "C10,C15:push_leaf.clears_climbed_levels");
     }
     if h2 > 0 {
-        assert!(done(heights2, c128_2, h2), "C15:push_leaf.marks_left_finished");
+        assert!(done(heights2, c128_2, h2), "C10,C15:push_leaf.marks_left_finished");
     }
     if i < h2 || i > h {
-        assert!(done(heights2, c128_2, i) == done(heights, c128, i), "C15:push_leaf.other_levels_unchanged");
+        assert!(done(heights2, c128_2, i) == done(heights, c128, i), "C10,C15:push_leaf.other_levels_unchanged");
     }
-    assert!(wf(heights2, c128_2, h2), "C15:push_leaf.invariant");
+    assert!(wf(heights2, c128_2, h2), "C10,C15:push_leaf.invariant");
     // never run the (recursive) drop glue of Arc<Miniscript> under CBMC
     core::mem::forget(b);
     core::mem::forget(keep);
@@ -180,21 +180,21 @@ fn preorder_case(n: usize, toks: [bool; MAXTOK]) {
     let mut t = 0;
     while t < n {
         if toks[t] {
-            assert!(b.push_inner_node().is_ok(), "C15:builder_preorder.inner_node_accepted");
+            assert!(b.push_inner_node().is_ok(), "C10,C15:builder_preorder.inner_node_accepted");
         } else {
             b.push_leaf(Arc::clone(&leaves[li]));
             li += 1;
         }
-        assert!(wf(b.complete_heights, b.complete_128, b.current_height), "C15:builder_preorder.invariant");
+        assert!(wf(b.complete_heights, b.complete_128, b.current_height), "C10,C15:builder_preorder.invariant");
         t += 1;
     }
-    assert!(b.current_height == 0 && b.complete_heights == 0 && !b.complete_128, "C15:builder_preorder.ends_at_root");
+    assert!(b.current_height == 0 && b.complete_heights == 0 && !b.complete_128, "C10,C15:builder_preorder.ends_at_root");
     let tree = b.finalize();
-    assert!(tree.depths_leaves.len() == nleaves, "C15:builder_preorder.leaf_count");
+    assert!(tree.depths_leaves.len() == nleaves, "C10,C15:builder_preorder.leaf_count");
     let mut j = 0;
     while j < nleaves {
-        assert!(tree.depths_leaves[j].0 == exp_depth[j], "C15:builder_preorder.depths");
-        assert!(Arc::ptr_eq(&tree.depths_leaves[j].1, &leaves[j]), "C15:builder_preorder.order");
+        assert!(tree.depths_leaves[j].0 == exp_depth[j], "C10,C15:builder_preorder.depths");
+        assert!(Arc::ptr_eq(&tree.depths_leaves[j].1, &leaves[j]), "C10,C15:builder_preorder.order");
         j += 1;
     }
     core::mem::forget(tree);
